@@ -1,4 +1,141 @@
-From Coq Require Import QArith List.
-From PD Require Import Model.MergeLoop Model.Locate Proofs.C02.
-Theorem C02_placeholder : True. Proof. exact I. Qed.
-Print Assumptions C02_placeholder.
+(* C02 -- property theorems only. *)
+From Coq Require Import QArith ZArith List Arith Bool.
+Import ListNotations.
+From PD Require Import Model.Grid Model.MergeLoop Model.Locate Model.LocateSym Model.Overlap
+  Proofs.MergeLoop Proofs.Overlap Proofs.C02 Proofs.Components Proofs.LocateCart.
+Local Open Scope Q_scope.
+
+(* ---- the periodic merge loop, for ANY list of boundary edges between labels 0..n-1 ---- *)
+Theorem C02_merge_classes : forall N n pos0 vol0, (forall j, (j < n)%nat -> 0 < vol0 j) ->
+  forall es, edges_ok n es -> forall j k,
+  cl (merge_all N (init_state pos0 vol0) es) j = cl (merge_all N (init_state pos0 vol0) es) k <-> eqclos es j k.
+Proof. exact merge_classes. Qed.
+Print Assumptions C02_merge_classes.
+
+Theorem C02_merge_volume : forall N n pos0 vol0, (forall j, (j < n)%nat -> 0 < vol0 j) ->
+  forall es, edges_ok n es -> forall k, (k < n)%nat ->
+  let st := merge_all N (init_state pos0 vol0) es in mvol st (cl st k) == msum n (cl st) (cl st k) vol0.
+Proof. exact merge_volume. Qed.
+Print Assumptions C02_merge_volume.
+
+Theorem C02_merge_position : forall N n pos0 vol0, (forall j, (j < n)%nat -> 0 < vol0 j) ->
+  forall es, edges_ok n es -> forall k a, (k < n)%nat ->
+  let st := merge_all N (init_state pos0 vol0) es in
+  mpos st (cl st k) a * msum n (cl st) (cl st k) vol0 == msum n (cl st) (cl st k) (contrib N pos0 vol0 st a).
+Proof. exact merge_position. Qed.
+Print Assumptions C02_merge_position.
+
+Theorem C02_merge_offsets_follow_lift : forall N pos0 vol0 kappa es, lift_ok kappa es ->
+  exists t : nat -> nat -> Z, forall k a,
+    (off (merge_all N (init_state pos0 vol0) es) k a =
+     kappa k a + t (cl (merge_all N (init_state pos0 vol0) es) k) a)%Z.
+Proof. exact merge_offsets. Qed.
+Print Assumptions C02_merge_offsets_follow_lift.
+
+(* ---- Cartesian grids: clusters = connected components under torus adjacency ----
+   img: label image of scipy.ndimage.label (oracle) in raster order; LabelSpecImg: equal non-zero labels
+   <=> connected through face-adjacent mask cells inside the box; wf_img: one entry per grid cell, every
+   label 1..n occurs.  torus_conn: connectivity through faces and across periodic boundaries. *)
+Theorem C02_cartesian_components : forall g img, grid_ok g -> wf_img g img -> LabelSpecImg img ->
+  forall a b, In a (mask_cells img) -> In b (mask_cells img) ->
+  cl (final_state g img) (clab img a) = cl (final_state g img) (clab img b) <-> torus_conn g img a b.
+Proof. exact locate_cart_components. Qed.
+Print Assumptions C02_cartesian_components.
+
+(* a droplet's volume is its component's total cell volume *)
+Theorem C02_cartesian_volume : forall g img, grid_ok g -> wf_img g img -> LabelSpecImg img ->
+  forall a comp, In a (mask_cells img) -> NoDup comp ->
+  (forall c, In c comp <-> In c (mask_cells img) /\ torus_conn g img a c) ->
+  mvol (final_state g img) (cl (final_state g img) (clab img a))
+  == cell_volume g * inject_Z (Z.of_nat (length comp)).
+Proof. exact locate_cart_volume. Qed.
+Print Assumptions C02_cartesian_volume.
+
+(* components that do not wind around a periodic axis (a consistent lift kappa of the labels exists):
+   the stored position is the centre of mass of the unwrapped component, up to whole periods t *)
+Theorem C02_cartesian_position : forall g img, grid_ok g -> wf_img g img -> LabelSpecImg img ->
+  forall kappa, lift_ok kappa (edges g img) ->
+  exists t : nat -> nat -> Z, forall a ax comp, In a (mask_cells img) -> NoDup comp ->
+    (forall c, In c comp <-> In c (mask_cells img) /\ torus_conn g img a c) ->
+    let i := cl (final_state g img) (clab img a) in
+    mpos (final_state g img) i ax * inject_Z (Z.of_nat (length comp))
+    == lsum comp (fun c => coordQ c ax + (1 # 2) + inject_Z ((kappa (clab img c) ax + t i ax) * shapeN g ax)).
+Proof. exact locate_cart_position. Qed.
+Print Assumptions C02_cartesian_position.
+
+(* meaning of the lift: across a periodic boundary pair (l on the low face, h on the high face of axis ax)
+   the lifted cells are face neighbours exactly when kappa is consistent on that edge *)
+Theorem C02_lift_means_unwrapped : forall g img kappa ax l h a, grid_ok g -> wrap_pair g ax l h ->
+  (a < length g)%nat ->
+  coordQ h a + inject_Z (kappa (clab img h) a * shapeN g a) + inject_Z (delta a ax)
+  == coordQ l a + inject_Z (kappa (clab img l) a * shapeN g a)
+  <-> kappa (clab img h) a = (kappa (clab img l) a - delta a ax)%Z.
+Proof. exact wrap_pair_lift_adjacent. Qed.
+Print Assumptions C02_lift_means_unwrapped.
+
+(* the boundary edges the model enumerates are exactly the periodic boundary pairs of mask cells *)
+Theorem C02_edges_sound_complete : forall g img, grid_ok g -> wf_img g img ->
+  (forall kl kh ax, In (kl, kh, ax) (edges g img) ->
+     exists l h, In l (mask_cells img) /\ In h (mask_cells img) /\ wrap_pair g ax l h /\
+                 clab img l = kl /\ clab img h = kh) /\
+  (forall ax l h, In l (mask_cells img) -> In h (mask_cells img) -> wrap_pair g ax l h ->
+     In (clab img l, clab img h, ax) (edges g img)).
+Proof.
+  intros g img Hg Hw. exact (conj (fun kl kh ax => edges_sound g img kl kh ax Hg Hw)
+                                  (fun ax l h => edges_complete g img ax l h Hg)).
+Qed.
+Print Assumptions C02_edges_sound_complete.
+
+(* ---- returned droplets ---- *)
+Theorem C02_returned_do_not_overlap : forall D rad l i j,
+  In i (ro D rad 0 l) -> In j (ro D rad 0 l) -> i <> j -> 0 <= D i j.
+Proof. exact returned_do_not_overlap. Qed.
+Print Assumptions C02_returned_do_not_overlap.
+
+Theorem C02_left_out_only_if_overlapped : forall D rad l k, In k l -> ~ In k (ro D rad 0 l) ->
+  exists j, In j l /\ j <> k /\ (D k j < 0 \/ D j k < 0) /\ rad k <= rad j.
+Proof. exact left_out_only_if_overlapped. Qed.
+Print Assumptions C02_left_out_only_if_overlapped.
+
+(* ---- symmetric grids ---- *)
+Theorem C02_radial : forall r_lo dr m,
+  match locate_radial r_lo dr m with
+  | None => nth_error m 0 = Some false \/ m = []
+  | Some r => exists n, (0 < n)%nat /\ r = r_lo + inject_Z (Z.of_nat n) * dr /\
+                        (forall i, (i < n)%nat -> nth_error m i = Some true) /\
+                        (nth_error m n = Some false \/ nth_error m n = None)
+  end.
+Proof. exact locate_radial_spec. Qed.
+Print Assumptions C02_radial.
+
+Theorem C02_cyl_candidates_are_axis_clusters : forall g img ds, cyl_single g img = Found ds ->
+  (forall d, In d ds -> exists k, (k < num_labels img)%nat /\ on_axis (members img k) = true /\
+                                  d = cyl_droplet g (members img k)) /\
+  (forall k, (k < num_labels img)%nat -> on_axis (members img k) = true -> In (cyl_droplet g (members img k)) ds).
+Proof. intros g img ds H. exact (conj (cyl_single_members g img ds H) (cyl_single_complete g img ds H)). Qed.
+Print Assumptions C02_cyl_candidates_are_axis_clusters.
+
+Theorem C02_cyl_volume_is_cluster_volume : forall g cs,
+  snd (cyl_droplet g cs) = csum cs (fun c => shell g (ridx c)).
+Proof. exact cyl_droplet_volume. Qed.
+Print Assumptions C02_cyl_volume_is_cluster_volume.
+
+Theorem C02_cyl_empty_if_off_axis : forall g img_pad img,
+  (forall k, on_axis (members img k) = false) -> (forall k, on_axis (members img_pad k) = false) ->
+  cyl_candidates g img_pad img = [].
+Proof. exact cyl_empty_if_off_axis. Qed.
+Print Assumptions C02_cyl_empty_if_off_axis.
+
+Theorem C02_cyl_window_in_box : forall g ds d, In d (cyl_window g ds) -> cg_zlo g <= fst d /\ fst d < cg_zhi g.
+Proof. exact cyl_window_in_box. Qed.
+Print Assumptions C02_cyl_window_in_box.
+
+(* non-vacuity: the 3x3 doubly periodic image of defect F1b: one torus component of 5 cells *)
+Example C02_nonvacuous :
+  let g := [ {| ncell := 3; alo := 0; ahi := 3; aper := true |}; {| ncell := 3; alo := 0; ahi := 3; aper := true |} ] in
+  map (fun p => (map Qred (fst p), Qred (snd p))) (candidates g [0;1;0; 2;0;3; 2;2;0]%nat) = [([23 # 10; 7 # 10], 5)] /\
+  edges_ok 3 (edges g (mk_limage (gshape g) [0;1;0; 2;0;3; 2;2;0]%nat)).
+Proof.
+  split; [vm_compute; reflexivity|].
+  intros kl kh ax H. vm_compute in H. destruct H as [H|[H|[]]]; injection H as <- <- <-; split; repeat constructor.
+Qed.
